@@ -13,12 +13,13 @@ function validate(ctx, content)
   r[#r + 1] = attempt("os.execute", function() return os.execute("true") end)
   r[#r + 1] = attempt("os.getenv", function() return os.getenv("PATH") ~= nil end)
   r[#r + 1] = attempt("os.remove", function() return type(os.remove) == "function" end)
-  r[#r + 1] = attempt("io.popen", function() local p = io.popen("echo hi"); return p ~= nil end)
+  r[#r + 1] = attempt("io.popen", function() local p = io.popen("true"); local ok = p ~= nil; if p then p:close() end; return ok end)
   r[#r + 1] = attempt("require-os", function() return require("os") ~= nil end)
   r[#r + 1] = attempt("require-io", function() return require("io") ~= nil end)
   r[#r + 1] = attempt("dofile", function() return dofile(side) == 42 end)
   r[#r + 1] = attempt("loadfile", function() local f = loadfile(side); return f ~= nil and f() == 42 end)
-  r[#r + 1] = attempt("package.loadlib", function() return type(package.loadlib) == "function" end)
+  -- really call it: a stub that raises an error counts as blocked
+  r[#r + 1] = attempt("package.loadlib", function() local f, err = package.loadlib("/nonexistent/libx.so", "*"); return f ~= nil or err ~= nil end)
   r[#r + 1] = attempt("package.searchpath", function() return type(package.searchpath) == "function" end)
   r[#r + 1] = attempt("debug.getinfo", function() return debug.getinfo(1) ~= nil end)
   r[#r + 1] = attempt("debug.getregistry", function() return debug.getregistry() ~= nil end)
